@@ -13,7 +13,7 @@ import os.path
 import runpy
 import sys
 from pathlib import Path
-from typing import IO, TYPE_CHECKING, List, Optional, Tuple
+from typing import IO, TYPE_CHECKING, List, Optional, Set, Tuple
 
 from libcst import Module, parse_module
 from libcst.codemod import CodemodContext
@@ -146,20 +146,29 @@ class HandlerError(Exception):
     pass
 
 
+def get_import_items(module: Module) -> Set[ImportItem]:
+    """Every import the module makes.
+
+    GatherImportsVisitor.symbol_mapping cannot be used for this: it keeps one
+    import per symbol, and a module may import a symbol more than once
+    (`try: from fast import X` / `except ImportError: from slow import X`).
+    """
+    gatherer = GatherImportsVisitor(CodemodContext())
+    module.visit(gatherer)
+    items = {ImportItem(name) for name in gatherer.module_imports}
+    for name, alias in gatherer.module_aliases.items():
+        items.add(ImportItem(name, alias=alias))
+    for name, objects in gatherer.object_mapping.items():
+        items.update(ImportItem(name, obj_name=obj) for obj in objects)
+    for name, aliases in gatherer.alias_mapping.items():
+        items.update(ImportItem(name, obj_name=obj, alias=alias) for obj, alias in aliases)
+    return items
+
+
 def get_newly_imported_items(
     stub_module: Module, source_module: Module
 ) -> List[ImportItem]:
-    context = CodemodContext()
-    gatherer = GatherImportsVisitor(context)
-    stub_module.visit(gatherer)
-    stub_imports = list(gatherer.symbol_mapping.values())
-
-    context = CodemodContext()
-    gatherer = GatherImportsVisitor(context)
-    source_module.visit(gatherer)
-    source_imports = list(gatherer.symbol_mapping.values())
-
-    return list(set(stub_imports).difference(set(source_imports)))
+    return list(get_import_items(stub_module) - get_import_items(source_module))
 
 
 def apply_stub_using_libcst(
